@@ -91,6 +91,7 @@ type c06Sess struct {
 }
 
 type c06Knobs struct {
+	ValidDurMs      int64     `json:"idp_valid_duration_ms,omitempty"` // IdentityProvider.ValidDuration (metadata validity; says nothing about assertions); 0: unset
 	MaxIssueDelayMs int64     `json:"MaxIssueDelay_ms"`
 	MaxClockSkewMs  int64     `json:"MaxClockSkew_ms"`
 	SPs             []c06SP   `json:"sps"`
@@ -383,6 +384,7 @@ func genEgress(g *Rng, tier string) *Plan {
 		SigMethod:       Pick(g, "", "", dsig.RSASHA1SignatureMethod, dsig.RSASHA256SignatureMethod, dsig.RSASHA256SignatureMethod, dsig.RSASHA384SignatureMethod, dsig.RSASHA512SignatureMethod),
 		Intermediates:   g.PickW(6, 2, 2),
 		Registry:        Pick(g, "exact", "exact", "casefold"),
+		ValidDurMs:      Pick(g, int64(0), 0, 1000, 3_600_000, 172_800_000),
 	}
 	nsp := 1 + g.PickW(4, 4, 2)
 	for i := 0; i < nsp; i++ {
@@ -629,6 +631,10 @@ func execEgress(t *testing.T, p *Plan) *Result {
 	signFault := &c06SignFault{}
 	idp := &saml.IdentityProvider{Certificate: idpKey.Cert, Logger: nullLog{}, MetadataURL: mustURL(c06IdPEntity), SSOURL: mustURL(c06IdPSSO),
 		ServiceProviderProvider: reg, SignatureMethod: k.SigMethod}
+	if k.ValidDurMs > 0 {
+		vd := ms(k.ValidDurMs)
+		idp.ValidDuration = &vd
+	}
 	if k.KeyMode == "signer" {
 		idp.Signer = c06Signer{idpKey.Key, signFault}
 	} else {
